@@ -1046,6 +1046,32 @@ fn main() {
             cx.note(format!("laws: {} has no accepted honest run in this tier, skipped", c.key()));
         }
         }
+        // Poseidon (no lookups): seed moves on free cells with a long chain of affine repairs follow the
+        // chain of skipped-round cells of a partial-round batch
+        {
+            let mut rng = vcore::rng_for(seed, "c07-laws-poseidon");
+            let c = ZCase {
+                input: ZIn::Poseidon(vec![F::random(&mut rng), F::random(&mut rng)], params.clone()),
+                content: "laws-seeded".into(),
+            };
+            // (the whole permutation is one region: an alternative re-derives every later cell, so
+            // the repair chain is long; two candidates per step, eight states per depth)
+            let pcfg = vgad::laws::Cfg { max_rows: 1, max_repairs: 40, seed_free_cells: true, max_real_runs: 16, repair_branch: 2, repair_beam: 8, forward_repairs_only: true, ..Default::default() };
+            let mut pjobs: Vec<(String, (ZCase, u32, Vec<u32>))> = vec![];
+            if let Ok(k) = vcore::in_pool(1, || vgad::min_k(&c)) {
+                if let Some(regs) = vcore::in_pool(1, || vgad::laws::regions_of(&c, k)) {
+                    cx.note(format!("laws: {} regions in {}; all explored with seed moves", regs.len(), c.key()));
+                    for (ci, ch) in regs.iter().map(|r| r.0).collect::<Vec<u32>>().chunks(2).enumerate() {
+                        pjobs.push((format!("{}#laws{ci}", c.key()), (c.clone(), k, ch.to_vec())));
+                    }
+                }
+            }
+            cx.run_cases("laws-poseidon", &pjobs, |(c, k, rids)| {
+                let mut out = CaseOut::batch();
+                vgad::laws::explore(c, *k, rids, &pcfg, &mut out);
+                out
+            });
+        }
         let cfg = vgad::laws::Cfg::default();
         // RIPEMD-160 (a from-scratch circuit with the same plain/spreaded table design): the last
         // (thorough: the last eight) instance(s) of every region name
@@ -1054,7 +1080,8 @@ fn main() {
                 msg: content("seeded", 1, seed, "ripemd160"),
                 content: "seeded".into(),
             };
-            let per_kind = tier.pick(1usize, 8usize);
+            // (thorough tier only: ~14 s for nine regions is more than the quick tier can spare)
+            let per_kind = tier.pick(0usize, 8usize);
             let mut rjobs: Vec<(String, (RipemdCase, u32, Vec<u32>))> = vec![];
             if let Some((_, _, k)) = sizes.get(&fs::FsCase::key(&c)).copied() {
                 if let Some(regs) = vcore::in_pool(1, || vgad::laws::regions_of_subject(&fs::FsSubject(&c), k)) {
